@@ -68,6 +68,29 @@ class C09Session(Session):
         for o in self.world.objs:
             self.models.append(PathModel(o._position, pathops.quats_of(o)))
         self.shrunk = [False] * len(self.world.objs)
+        self._construction_checked = False
+
+    def _check_construction(self):
+        """position and orientation given at construction: the shorter one is edge-padded to the longer one"""
+        from scipy.spatial.transform import Rotation as R
+
+        for i, (o, sp) in enumerate(zip(self.world.objs, self.spec["objects"])):
+            P = np.array(sp["pos"], dtype=float).reshape(-1, 3) if sp.get("pos") is not None else np.zeros((1, 3))
+            Q = R.from_rotvec(np.array(sp["rot"], dtype=float), degrees=True).as_quat().reshape(-1, 4) \
+                if sp.get("rot") is not None else np.array([[0.0, 0.0, 0.0, 1.0]])
+            n = max(len(P), len(Q))
+            P = np.concatenate([P, np.tile(P[-1], (n - len(P), 1))])
+            Q = np.concatenate([Q, np.tile(Q[-1], (n - len(Q), 1))])
+            if sp.get("bystander"):
+                continue
+            if len(o._position) != len(o._orientation):
+                raise Violation("path_lengths_equal", f"object {i} constructed with position path "
+                                f"{o._position.shape} and orientation path of length {len(o._orientation)}",
+                                op="construct")
+            d = PathModel(P, Q).compare(o._position, pathops.quats_of(o), TOL)
+            if d:
+                raise Violation("model_refinement", f"object {i} after construction: {d}", op="construct",
+                                kind="length" if "length" in d else "value")
 
     def _sync_twin(self, i):
         pathops.exact_pose_copy(self.world.objs[i], self.twin.objs[i])
@@ -84,6 +107,9 @@ class C09Session(Session):
                             kind="length" if "length" in d else ("position" if "position" in d else "orientation"))
 
     def apply(self, op):
+        if not self._construction_checked:  # inside the run loop, so that a violation is a verdict
+            self._construction_checked = True
+            self._check_construction()
         w = self.world
         i = op["o"] % len(w.objs)
         obj = w.objs[i]
